@@ -16,6 +16,8 @@ import itertools
 import json
 import random
 import re
+import shutil
+import tempfile
 
 from lib import common
 from lib.common import dec_list
@@ -30,7 +32,8 @@ ROLLBACKS = ["rollback", "ROLLBACK", "rollback work"]
 # real side
 # ------------------------------------------------------------------------------------------------
 
-def _sql(st: str, rnd: random.Random) -> str:
+def _sql(st: str, rnd: random.Random, q: str = "") -> str:
+    """q = "db1.s1." for cursors of a connection opened without database/schema (fully qualified names)"""
     k = st[0]
     if k == "b":
         return rnd.choice(BEGINS)
@@ -41,16 +44,16 @@ def _sql(st: str, rnd: random.Random) -> str:
     if k == "k":
         return "select 1"
     if k == "s":
-        return f"select k, v from t{int(st[1:])}"
+        return f"select k, v from {q}t{int(st[1:])}"
     if k == "i":
         t, kk, v = st[1:].split(".")
-        return f"insert into t{t} values ({kk}, {v})"
+        return f"insert into {q}t{t} values ({kk}, {v})"
     if k == "d":
         t, kk = st[1:].split(".")
-        return f"delete from t{t} where k = {kk}"
+        return f"delete from {q}t{t} where k = {kk}"
     if k == "u":
         t, kk, v = st[1:].split(".")
-        return f"update t{t} set v = {v} where k = {kk}"
+        return f"update {q}t{t} set v = {v} where k = {kk}"
     if st.startswith("mu"):
         t, kk, v = st[2:].split(".")
         # a successful MERGE that updates the row with key kk (same effect as the UPDATE; several engine statements)
@@ -62,11 +65,11 @@ def _sql(st: str, rnd: random.Random) -> str:
         return (f"merge into t{t} using (select 1 as k, 1 as v) as src on t{t}.k = src.k when matched then update set nocol = src.v "
                 f"when not matched then insert (k, nocol) values (src.k, src.v)")
     if st == "ft":
-        return "select k from t_missing"
+        return f"select k from {q}t_missing"
     if st == "fc":
-        return "select nocol from t0"
+        return f"select nocol from {q}t0"
     if st == "fr":
-        return "insert into t0 values ('x', 1)"
+        return f"insert into {q}t0 values ('x', 1)"
     raise common.Infra(f"bad statement {st}")
 
 
@@ -120,7 +123,18 @@ def _real_case(case) -> list[str]:
     import snowflake.connector
     rnd = random.Random(case["spell"])
     out = []
-    with fakesnow.patch():
+    tmp = tempfile.mkdtemp(prefix="c13-") if case.get("dbpath") else None
+    try:
+        return _real_case_in(case, rnd, out, tmp)
+    finally:
+        if tmp:
+            shutil.rmtree(tmp, ignore_errors=True)
+
+
+def _real_case_in(case, rnd, out, tmp) -> list[str]:
+    import fakesnow
+    import snowflake.connector
+    with (fakesnow.patch(db_path=tmp) if tmp else fakesnow.patch()):
         setup = snowflake.connector.connect(database="db1", schema="s1")
         sc = setup.cursor()
         for t in range(NT):
@@ -128,15 +142,21 @@ def _real_case(case) -> list[str]:
             rows = case["init"][t] if t < len(case["init"]) else []
             if rows:
                 sc.execute(f"insert into t{t} values " + ",".join(f"({a},{b})" for a, b in rows))
-        conns, curs = [], []
+        conns, curs, named, qual = [], [], [], []
         for ev in case["events"]:
             k = ev[0]
             try:
                 if k == "C":
-                    conns.append(snowflake.connector.connect(database="db1", schema="s1"))
+                    if ev == "Cn":       # opened without database/schema: statements use fully qualified names
+                        conns.append(snowflake.connector.connect())
+                        named.append(False)
+                    else:
+                        conns.append(snowflake.connector.connect(database="db1", schema="s1"))
+                        named.append(True)
                     out.append("-")
                 elif k == "K":
                     curs.append(conns[int(ev[1:])].cursor())
+                    qual.append("" if named[int(ev[1:])] else "db1.s1.")
                     out.append("-")
                 elif k == "M":
                     r = conns[int(ev[1:])].commit()
@@ -147,7 +167,7 @@ def _real_case(case) -> list[str]:
                 elif k == "X":
                     ci, st = ev[1:].split(":")
                     cur = curs[int(ci)]
-                    r = cur.execute(_sql(st, rnd))
+                    r = cur.execute(_sql(st, rnd, qual[int(ci)]))
                     out.append(_canon(st, cur) if r is cur else f"?execute returned {r!r}")
                 else:
                     raise common.Infra(f"bad event {ev}")
@@ -302,6 +322,28 @@ def _random_case(rnd, nconn: int, length: int, envelope: bool, spell: int) -> di
     return {"init": init, "events": ev, "spell": spell}
 
 
+def _variant(case: dict, unnamed: bool, dbpath: bool) -> dict:
+    """configurations: connections opened WITHOUT database/schema (only those that run no MERGE, which needs a current
+    database for its temporary table), and an instance WITH db_path (fresh directory) instead of in memory"""
+    ev = list(case["events"])
+    if unnamed:
+        conn_of, merges, ci = {}, set(), 0
+        for e in ev:
+            if e[0] == "K":
+                conn_of[len(conn_of)] = int(e[1:])
+            elif e[0] == "X" and e.split(":")[1][:2] in ("fm", "mu"):
+                merges.add(conn_of[int(e[1:].split(":")[0])])
+        for i, e in enumerate(ev):
+            if e == "C":
+                if ci not in merges and not (i > 0 and ev[i - 1][0] == "X"):   # not the final reader
+                    ev[i] = "Cn"
+                ci += 1
+    out = dict(case, events=ev)
+    if dbpath:
+        out["dbpath"] = True
+    return out
+
+
 def _cases(chk) -> list[dict]:
     rnd = random.Random(chk.seed)
     quick = chk.tier == "quick"
@@ -321,18 +363,28 @@ def _cases(chk) -> list[dict]:
         order = [0] * len(a) + [1] * len(b)
         rnd.shuffle(order)
         cases.append(dict(_pair_case(rnd, _inst(a, 0), _inst(b, 1), order, "dense", False, rnd.randrange(1 << 30)), gen="fixed"))
+    # configurations: connections opened without database/schema; an instance with db_path
+    for a, b, api in [(CORE_SCRIPTS[0], CORE_SCRIPTS[3], False), (CORE_SCRIPTS[1], CORE_SCRIPTS[6], False), (CORE_SCRIPTS[0], CORE_SCRIPTS[6], True),
+                      (CORE_SCRIPTS[6], CORE_SCRIPTS[2], False)]:
+        orders = list(_interleavings(len(a), len(b)))
+        for order in rnd.sample(orders, 5):
+            base = _pair_case(rnd, _inst(a, 0), _inst(b, 1), order, "dense", api, rnd.randrange(1 << 30))
+            cases.append(dict(_variant(base, True, False), gen="fixed-unnamed"))
+            cases.append(dict(_variant(base, False, True), gen="fixed-dbpath"))
     # A. exhaustive statement-level interleavings of script pairs
     pairs = [(a, b) for a in range(len(CORE_SCRIPTS)) for b in range(len(CORE_SCRIPTS))]
     rnd.shuffle(pairs)
-    npairs = 16 if quick else len(pairs)
+    npairs = 16 if quick else 60    # thorough: a seeded sample of the ordered pairs (all of them is 125 CPU-min)
     for pi, (ia, ib) in enumerate(pairs[:npairs]):
         a, b = _inst(CORE_SCRIPTS[ia], 0), _inst(CORE_SCRIPTS[ib], 1)
         policy = ("dense", "others", "sparse", "others")[pi % 4] if quick else None
         api = pi % 3 == 2
         for order in _interleavings(len(a), len(b)):
             for pol in ([policy] if policy else ["dense", "sparse"]):
-                cases.append(dict(_pair_case(rnd, a, b, order, pol, api, rnd.randrange(1 << 30)), gen="pairs"))
-    chk.extra["exhaustive_part"] = (f"{npairs} ordered pairs of the {len(CORE_SCRIPTS)} core scripts x ALL interleavings "
+                base = _pair_case(rnd, a, b, order, pol, api, rnd.randrange(1 << 30))
+                cfg = pi % 4     # 0, 3: in memory, named connections · 1: connections without database · 2: db_path instance
+                cases.append(dict(_variant(base, cfg == 1, cfg == 2), gen="pairs" + ("", "-unnamed", "-dbpath", "")[cfg]))
+    chk.extra["exhaustive_part"] = (f"{npairs} (seeded sample of {len(pairs)}) ordered pairs of the {len(CORE_SCRIPTS)} core scripts x ALL interleavings "
                                     f"(C(len a + len b, len a) each)")
     # B. finding scripts against a reader, all interleavings
     fpairs = [(f, r) for f in range(len(FINDING_SCRIPTS)) for r in (0, 3, 10)]
@@ -343,10 +395,11 @@ def _cases(chk) -> list[dict]:
         for order in _interleavings(len(a), len(b)):
             cases.append(dict(_pair_case(rnd, a, b, order, "dense", False, rnd.randrange(1 << 30)), gen="finding-pairs"))
     # C. random histories, 2-3 connections, in and out of the envelope
-    nrand = 300 if quick else 6000
+    nrand = 300 if quick else 2500
     for i in range(nrand):
         nconn = rnd.choice([2, 3, 3])
-        cases.append(dict(_random_case(rnd, nconn, rnd.randint(3, 9), envelope=(i % 5 != 0), spell=rnd.randrange(1 << 30)), gen="random"))
+        base = _random_case(rnd, nconn, rnd.randint(3, 9), envelope=(i % 5 != 0), spell=rnd.randrange(1 << 30))
+        cases.append(dict(_variant(base, i % 6 == 1, i % 6 == 2), gen="random" + {1: "-unnamed", 2: "-dbpath"}.get(i % 6, "")))
     return cases
 
 
@@ -371,7 +424,8 @@ def _norm_model(ev: str, o: str) -> str:
 
 
 def _describe(case, i) -> str:
-    return f"event #{i} `{case['events'][i]}` of {case['events']} (init {case['init']})"
+    cfg = " on an instance WITH db_path" if case.get("dbpath") else ""
+    return f"event #{i} `{case['events'][i]}` of {case['events']} (init {case['init']}){cfg}"
 
 
 def _check(chk, case, real, reply) -> None:
